@@ -210,7 +210,7 @@ def replay_rejected_api(p):
         else:
             later._parent._eflr_item_list.remove(later)
         data = _write(df)
-        objs, _ = _objects(data, st)
+        objs, _r = _objects(data, st)
         if not bad and any(o[0][2] == 'Z' for o in objs):
             bad = f'the rejected {st} object Z is in the file written afterwards'
     except strict.StrictError as e:
